@@ -1,6 +1,6 @@
 """C14 (determinism across processes, histories, threads), C15 (completion for every size / shape), C16 (permutation helper)."""
 from __future__ import annotations
-import copy, glob, hashlib, json, os, random, subprocess, sys, tempfile, threading, time
+import copy, glob, itertools, hashlib, json, os, random, subprocess, sys, tempfile, threading, time
 import networkx as nx
 import gen, record, drivers, tlc, textgen, sched
 from record import Session
@@ -590,6 +590,32 @@ def c15(out, tier, rng):
         T = Session("c15-" + name)
         o = T.input(g)
         for x in [o] + [T.derive(o, record.relabel(T.objs[o], p, rng), p) for p in [gen.random_perm(rng, g.number_of_nodes())]]:
+            c = T.canon(x)
+            if c:
+                t = T.ser(c)
+                if t:
+                    T.parse(t, of=c)
+        ss.append(T)
+    # dense but not complete: a clique-like core with a few terminal atoms, complete graphs with bonds missing, complete bipartite
+    # graphs, dense random graphs (the number of pending atoms of a breadth-first walk is largest here)
+    dense = []
+    for k in ((5, 7, 8, 10, 12) if tier == "quick" else range(4, 17)):
+        core = [(a, b, 1) for a, b in itertools.combinations(range(k), 2)]
+        for pend in ((2, 3) if tier == "quick" else (1, 2, 3, 5)):
+            hosts = rng.sample(range(k), min(pend, k))
+            dense.append((f"clique{k}+{pend}", gen.mol([("C", 0, 0, 0)] * k + [("H", 0, 0, 0)] * len(hosts), core + [(h, k + j, 1) for j, h in enumerate(hosts)])))
+        drop = set(rng.sample(range(len(core)), rng.randint(1, 3)))
+        dense.append((f"clique{k}-minus", gen.mol([("C", 0, 0, 0)] * k, [e for j, e in enumerate(core) if j not in drop])))
+        a = max(2, k // 2)
+        dense.append((f"bipartite{a}x{k - a + 1}", gen.mol([("C", 0, 0, 0)] * a + [("N", 0, 0, 0)] * (k - a + 1), [(x, a + y, 1) for x in range(a) for y in range(k - a + 1)])))
+    for i in range(10 if tier == "quick" else 100):
+        n = rng.randint(7, 14)
+        dense.append((f"dense{i}", gen.mol([(rng.choice(["C", "C", "N", "B"]), 0, 0, 0) for _ in range(n)],
+                                           [(a, b, 1) for a, b in itertools.combinations(range(n), 2) if rng.random() < rng.choice([0.6, 0.8, 0.9])])))
+    for name, g in dense:
+        T = Session("c15-" + name)
+        o = T.input(g)
+        for x in [o, T.derive(o, *(lambda q: (record.relabel(T.objs[o], q, rng), q))(gen.random_perm(rng, g.number_of_nodes())))]:
             c = T.canon(x)
             if c:
                 t = T.ser(c)
